@@ -112,6 +112,43 @@ def newAccessCtx (allowed blocked : List Entry) : Except ConfErr Access :=
     | .error i => .error (.blocked i)
     | .ok bl => .ok { allowed := al, blocked := bl }
 
+/-! ### `POST /control/access/set` (access.go validateAccessSet, handleAccessSet)
+
+`aghalg.UniqChecker` counts occurrences; `Validate` fails when a count exceeds
+one; `Merge` adds the counts of two checkers. -/
+
+/-- `uc.Validate() != nil` for the checker filled from `l`. -/
+def hasDup : List Bytes → Bool
+  | [] => false
+  | x :: rest => rest.contains x || hasDup rest
+
+inductive SetErr where
+  | dupAllowed | dupDisallowed | dupHosts
+  /-- "items in allowed and disallowed clients intersect" -/
+  | intersect
+  | conf (e : ConfErr)
+  deriving DecidableEq, Repr
+
+/-- `validateAccessSet` on the raw strings.  The merged checker is only built
+from two duplicate-free lists, so it fails exactly when they share a string. -/
+def validateAccessSet (allowed disallowed hosts : List Bytes) : Option SetErr :=
+  if hasDup allowed then some .dupAllowed
+  else if hasDup disallowed then some .dupDisallowed
+  else if hasDup hosts then some .dupHosts
+  else if allowed.any (fun x => disallowed.contains x) then some .intersect
+  else none
+
+/-- `handleAccessSet`: the new manager replaces `s.access` only when the lists
+validate and `newAccessCtx` accepts them; otherwise 400 and nothing changes. -/
+def accessSet (cur : Access) (allowed disallowed : List Entry) (hosts : List Bytes) :
+    Access × Option SetErr :=
+  match validateAccessSet (allowed.map (·.raw)) (disallowed.map (·.raw)) hosts with
+  | some e => (cur, some e)
+  | none =>
+    match newAccessCtx allowed disallowed with
+    | .error e => (cur, some (.conf e))
+    | .ok a => (a, none)
+
 /-- `allowlistMode` -/
 def Access.allowlistMode (a : Access) : Bool :=
   a.allowed.ips.length != 0 || a.allowed.ids.length != 0 || a.allowed.nets.length != 0
